@@ -1,6 +1,6 @@
 #!/bin/bash
-# ben.sh <seed dir> <prop> [...]: apply the patch to /repo, run the given checks, undo
+# ben.sh <seed dir> <prop> [...]: apply the patch to /repo, run the given checks, undo (new files created by the patch are removed again)
 D=$1; shift
 cd /repo && git apply "$D/patch.diff" || exit 3
 for p in "$@"; do (cd /verif && VERIF_EVIDENCE_OUT=/tmp/ben_ev ./check $p 2>&1 | grep -v "^  construct" | cut -c1-700 | head -${LINES_MAX:-14}); done
-cd /repo && git checkout -- . 
+cd /repo && git checkout -- . && git clean -fdq -- outrank tests
